@@ -24,6 +24,62 @@ whatever the reader instance has read before.
 The CPython csv / json behaviour the theorems rest on is sampled separately (kinds csvtext, rows,
 jsonstr): exhaustive small alphabets + random.
 
+State and aliasing.  Entry points the property is observed through, the mutable objects they receive or create that can
+outlive one call, and the stream that (a) reuses the object across calls whose other arguments differ, in both orders,
+(b) checks the caller's object afterwards, (c) interleaves calls that fail part-way, (d) repeats a call and wants the same
+result, (e) calls from a second thread.  "script" / "cliseq" / "multiset" are the kinds below; "-" = not applicable.
+
+  entry point                         object that outlives the call                     a          b        c        d        e
+  CSVResultsExporter(**format_opts)   the instance: .format_opts (per instance; the     script     script   script   script   script(1)
+    .export(file_or_path, results)    ** dict is a fresh dict, so the caller's keyword
+    .get_header / .get_row            dict cannot be aliased); class-level COLUMNS      -          script   -        -        -
+  JSONResultsExporter(pretty)         the instance (.pretty); class-level to_json       script     script   script   script   script(1)
+    .export                           dispatch registry (filled at import only)
+  ResultsArchiveWriter(pretty)        the instance (.pretty); class-level registry      script     script   script   script   script(1)
+    .export
+  (all three) argument `results`      QueryResults: .items list, QueryResultItem,       script     script   script   script   -
+                                      QueryInput (shared between twins), ClassifierResult,
+                                      GenomeMatch (.distance float32 / float), the
+                                      QueryParams object (query() stores the CALLER'S
+                                      object in .params; shared between twins), .extra
+                                      dict (aliased into the JSON document by
+                                      asdict(recurse=False)), SignaturesMeta, the ORM
+                                      objects Taxon / AnnotatedGenome / ReferenceGenomeSet
+                                      (session new / dirty / deleted must stay empty)
+  (all three) argument `file_or_path` an open text stream of the caller (must stay      script     script   script   -        -
+                                      open, earlier content untouched: target
+                                      'append'), a path (str / PathLike) written twice
+                                      with texts of different length (path0 / path1)
+  ResultsArchiveReader(session)       the instance: ._converter (a COPY of the module-  multiset,  -        script   multiset -(2)
+    .read(file_or_path)               level gambit.util.json.converter taken at          script                       script
+    .results_from_json(data)          construction), ._current_genomeset (set for the
+                                      duration of one call, reset in `finally`), the
+                                      Session (identity map; several genome sets, a
+                                      second database with its own session and reader)
+    argument `data`                   the caller's parsed dict (via 'data': ONE dict    script     script   script   script   -
+                                      per result set, handed to several calls)
+    argument `file_or_path`           stream / path (path1 is shared with exports)      script     -        script   -        -
+  gambit.util.json.converter          module-level cattrs converter behind to_json /    (every export and read goes through it; readers of two
+    to_json / from_json / dump(s)     from_json and behind every reader's copy          sessions and all three exporters interleaved: script)
+  query() / query_parse()             producer only (C09 / C10 judge it): params        script     script   -        -        -
+                                      object, list of inputs, extra dict shared by
+                                      the result sets of a case; list of inputs
+                                      compared after the call
+  gambit query -o OUT -f FMT          per invocation: CLIContext, exporter from         cli,       -        cliseq   cliseq   -
+    [--strict] [-c N] FILES           get_exporter(), database session; across          cliseq
+                                      invocations of one process: module state of
+                                      gambit.cli / gambit.results, the OUT path
+                                      (one path for all invocations of a case),
+                                      omp_set_num_threads (-c)
+
+  (1) nothing in results.py is advertised as thread-safe; exporters document no state, so a SEQUENTIAL export from a worker
+      thread (started and joined inside the step) of a results object whose ORM attributes are already loaded is included.
+  (2) a reader is bound to a SQLAlchemy Session, which is documented as not usable from several threads: no thread steps.
+  Before this audit: fresh exporter instances for every result set and format (no reuse at all), readers reused by kind
+  multiset only over successful reads of one session, no failing call anywhere, no check that an export leaves its argument
+  alone except the == of the archive clause (last of the three exports), results_from_json never called directly.
+Kind script: see k_script.  Kind cliseq: see k_cliseq.
+
 The unchanged exporter writes a lone carriage return unquoted (DESIGN.md 6-i).  The harness probes
 once whether the implementation under test quotes it; if not, the designated case
 (kind 'lonecr', label 'a\\rb') reports it and lone CRs are kept out of the random name pools so
@@ -47,6 +103,16 @@ RULE = ('results: a result set (real query via API or CLI on a generated databas
         'by reader instances reused according to a schedule [[reader, result set], ...]; every loaded object is compared with its '
         'original (==, distances bit for bit, genome annotation of the right set); non-trivial when some reader instance reads more '
         'than one archive (counter multiset:reader-crosses-genome-sets: a reader reads archives of different genome sets).  '
+        'script: 2-4 result sets (real queries and hand-built objects; twins share labels, the QueryParams object, the QueryInput objects '
+        'and the extra dict) against the genome sets of one database file and optionally a second database, and a script of 2-7 steps (corpus cases: longer) '
+        '(export by one of 2-4 exporter instances with format options / pretty, to a fresh stream / a shared stream / one of two paths, '
+        'possibly from a worker thread; read by one of two reader instances per session from text / pretty text / a shared parsed dict / '
+        'a path; exports and reads that fail part-way); every good step judged by the predicate of its format, after every step all '
+        'caller objects compared with snapshots, at the end fresh default exporters must reproduce the first texts; non-trivial when '
+        'some exporter / reader / result set is used by two steps (counters script:good-call-after-failed-call-on-same-object, '
+        'script:exporter-or-reader-crosses-genome-sets-or-databases).  '
+        'cliseq: 3-6 CLI invocations in one process over two databases, one output path, formats / --strict / -c varying, failing '
+        'invocations in between; non-trivial when two invocations succeed.  '
         'rows: rows of strings through the exporter\'s csv writer, non-trivial when a field needs '
         'quoting.  csvtext / jsonstr: CPython reader / json string behaviour vs the model')
 TRUSTED = ['CPython csv / json modules (modelled in Model/C11Csv.v, C11Json.v; sampled by kinds csvtext, rows, jsonstr)',
@@ -55,14 +121,27 @@ TRUSTED = ['CPython csv / json modules (modelled in Model/C11Csv.v, C11Json.v; s
            'sharing Genome rows by kind multiset), the session identity map (== of results compares ORM objects by identity), SQLite storage of text',
            'stream multiset: reader-instance state is explored by generated schedules (8 shapes), not proved absent: the model reader is a pure '
            'function of (database rows, archive text)',
-           'json.loads on whole documents (only the string scanner and the document writer are modelled)']
+           'json.loads on whole documents (only the string scanner and the document writer are modelled)',
+           'streams script / cliseq: hidden state and aliasing (instance, class, module, thread level; caller objects written to; state left by a failed '
+           'call) are explored by generated call sequences over shared objects, not proved absent: the model is a pure function of one result set, so '
+           'it says what EVERY call of a sequence has to produce but not that the implementation has no memory.  Within a script only the first '
+           'result set goes through the model; the other ones and all non-default exporter options (csv dialect parameters, pretty) are judged by '
+           'the property predicates (csv.reader / json.loads / ResultsArchiveReader against the harness tables)',
+           'stream script, outcome of the FAILING calls themselves (exception or not, partial output) is not judged; snapshots compare what the property '
+           'can see of a results object (keys, labels, flags, texts, type and bits of distances, object identities, session new / dirty / deleted), '
+           'not private attributes an implementation may add to its own instances']
 ASSUMPTIONS = ['CSV read back with csv.reader on a text stream opened with newline="" (as the csv documentation requires)',
                'fields shorter than csv.field_size_limit() (131072 characters)',
                'strings are Unicode text: no (high surrogate, low surrogate) code point adjacency (C11_json_surrogate_pair_refuted)',
                'kinds query / built / cli: the database holds one genome set (ReferenceDatabase.load_from_dir / only_genomeset); kind multiset: '
                'several genome sets with distinct (key, version), every set queried through its own ReferenceDatabase on one shared session; '
                'taxon and genome keys are unique (schema)',
-               'output files are written on a platform whose text mode does not translate LF']
+               'output files are written on a platform whose text mode does not translate LF',
+               'kind script, CSV exporters with format options: the reader is told the delimiter / quote character / dialect the exporter was given '
+               '(quoting style and line terminator need not be told); non-default options are chosen so that a carriage return is always quoted '
+               '(known defect C11-csv-lone-cr is reported once, by kind lonecr)',
+               'kinds script / cliseq: no entry point of results.py is advertised as thread-safe or fork-safe; calls are sequential (a worker-thread '
+               'export is started and joined inside its step), one reader per (number, session)']
 BATCH = 400
 
 NASTY = ['plain', 'Genus species', 'com,ma', 'quo"te', '"quoted"', 'new\nline', 'cr\r\nlf', 'mixed\r,x', 'q"\rx',
@@ -255,6 +334,8 @@ def get_db(seed, lone_cr=None):
 			shutil.rmtree(old.dir, ignore_errors=True)
 			del STATE['dbs'][k0]
 		STATE['dbs'][key] = GenDB(seed, lone_cr)
+	else:
+		STATE['dbs'][key] = STATE['dbs'].pop(key)       # most recently used last: a case that takes two databases keeps both
 	return STATE['dbs'][key]
 
 
@@ -437,6 +518,8 @@ def get_mdb(seed, lone_cr=None):
 			shutil.rmtree(old.dir, ignore_errors=True)
 			del cache[k0]
 		cache[key] = MultiDB(seed, lone_cr)
+	else:
+		cache[key] = cache.pop(key)
 	return cache[key]
 
 
@@ -567,12 +650,20 @@ def compare_loaded(g, a, results, r2, a2, own):
 	return bad
 
 
-def check_results(ctx, kind, case, g, results, texts=None, cli_read=None, register=True, where=''):
+def check_results(ctx, kind, case, g, results, texts=None, cli_read=None, register=True, where='', model=True):
 	"""compare the three exports of `results` with model and property.  `texts` (CLI): already
 	produced outputs {'csv':..., 'json':..., 'archive':...} (any subset).  `where`: prefix of violation
-	texts (which result set of a multi-result case)."""
+	texts (which result set of a multi-result case).  `model=False`: property predicates only (kind script uses the model
+	for one result set per case).  Returns the abstraction, the texts, the model documents and the expected CSV rows."""
 	import numpy as np
 	from gambit.results import CSVResultsExporter, JSONResultsExporter, ResultsArchiveWriter, ResultsArchiveReader
+	if STATE.get('script_violation') and not ctx.replaying:
+		# a sequence stream (script / cliseq) has reported a violation in this process: it may have left state behind at
+		# module / class / thread level, and a single-call failure seen from now on would not replay in a fresh process
+		ctx.count('skipped:result-set-after-a-sequence-violation')
+		if register:
+			ctx.case(case, nontrivial=False)
+		return None
 	a = abs_results(results)
 	if register:
 		ctx.case(case, nontrivial=_interesting(g, a))
@@ -588,7 +679,7 @@ def check_results(ctx, kind, case, g, results, texts=None, cli_read=None, regist
 			except Exception as e:
 				ctx.violation(kind, case, where + f'{fmt} export of the result set raised {type(e).__name__}: {e}')
 	mod = None
-	if ctx.model_ok:
+	if ctx.model_ok and model:
 		ans = ctx.model([(1107, xitems), (1108, er), (1109, er), (1110, [g.enc_refdb(), er]), (1111, xitems)])
 		mod = dict(csv=U(ans[0]), json=U(ans[1]), archive=U(ans[2]), read=ans[3], rows=[[U(f) for f in r] for r in ans[4]])
 		if mod['rows'] != exp_rows:
@@ -647,6 +738,7 @@ def check_results(ctx, kind, case, g, results, texts=None, cli_read=None, regist
 		elif mod and t != mod['archive']:
 			i = next((i for i, (x, y) in enumerate(zip(t, mod['archive'])) if x != y), min(len(t), len(mod['archive'])))
 			ctx.broke('correspondence archive (byte-for-byte)', f'case {case}: first difference at {i}: impl ...{t[max(0, i - 60):i + 60]!r} model ...{mod["archive"][max(0, i - 60):i + 60]!r}')
+	return dict(a=a, texts=texts, mod=mod, exp_rows=exp_rows)
 
 
 def _check_json(g, a, d, exp_rows):
@@ -725,15 +817,17 @@ def _inputs(case):
 	return out
 
 
-def run_query(g, case):
+def run_query(g, case, params=None, inputs=None, extra=None):
 	"""real API query described by `case` (strict, report_closest, chunksize, queries, labels, files, extra)
-	against the genome set / database `g`"""
+	against the genome set / database `g`.  `params`, `inputs`, `extra` (kind script): caller-owned objects that are
+	shared between several queries instead of fresh ones"""
 	from gambit.query import query, QueryParams
 	gkeys = list(g.genomes)
 	spec = [[None if q[0] is None else gkeys[q[0] % len(gkeys)], q[1], q[2]] for q in case['queries']]
-	params = QueryParams(classify_strict=case['strict'], report_closest=case['report_closest'], chunksize=case['chunksize'])
-	res = query(g.db, _query_sigs(g, spec), params, inputs=_inputs(case))
-	res.extra = case.get('extra', {})
+	if params is None:
+		params = QueryParams(classify_strict=case['strict'], report_closest=case['report_closest'], chunksize=case['chunksize'])
+	res = query(g.db, _query_sigs(g, spec), params, inputs=_inputs(case) if inputs is None else inputs)
+	res.extra = case.get('extra', {}) if extra is None else extra
 	return res
 
 
@@ -936,6 +1030,9 @@ def _rows_exporter():
 def k_rows(ctx, cases):
 	"""rows of strings through CSVResultsExporter.export (first row plays the header)"""
 	RowsExporter = _rows_exporter()
+	if STATE.get('script_violation') and not ctx.replaying:
+		ctx.count('skipped:rows-after-a-sequence-violation', len(cases))        # see check_results
+		return
 	reqs = []
 	for case in cases:
 		rows = [[S(f) for f in r] for r in case['rows']]
@@ -1029,7 +1126,582 @@ def k_jsontext(ctx, cases):
 			ctx.broke('correspondence cpython-json (string scanner)', f'{l!r}: json {py} model {ans[i]}')
 
 
-KINDS = {'query': k_query, 'built': k_built, 'multiset': k_multiset, 'cli': k_cli, 'lonecr': k_lonecr, 'chunknone': k_chunknone, 'rows': k_rows, 'csvtext': k_csvtext,
+# ---- sequences of calls over shared objects (state and aliasing) ----------------------------
+
+# exporter options of the script stream.  Every non-default entry quotes a carriage return whatever else the field holds
+# (QUOTE_ALL / QUOTE_NONNUMERIC, or CR is part of the line terminator), so that the known lone-CR defect (DESIGN.md 6-i:
+# 'mixed\r,x' is only quoted by the default dialect because of its comma) is not re-reported through other delimiters
+CSV_OPTS = [{}, {}, {}, {'quoting': 'all'}, {'delimiter': ';', 'lineterminator': '\r\n'}, {'lineterminator': '\r\n'},
+            {'quotechar': "'", 'delimiter': '\t', 'lineterminator': '\r\n'}, {'quoting': 'nonnumeric'}, {'dialect': 'unix'}, {'dialect': 'excel-tab'}]
+_QUOTING = {'minimal': csv.QUOTE_MINIMAL, 'all': csv.QUOTE_ALL, 'nonnumeric': csv.QUOTE_NONNUMERIC}
+
+
+def _csv_kwargs(opts):
+	kw = dict(opts)
+	if 'quoting' in kw:
+		kw['quoting'] = _QUOTING[kw['quoting']]
+	return kw
+
+
+def _csv_reader_kwargs(opts):
+	"""what a reader of the file has to be told: the delimiter / quote character / dialect the exporter was
+	constructed with (quoting style and line terminator are transparent to csv.reader on a newline='' stream)"""
+	return {k: v for k, v in opts.items() if k in ('dialect', 'delimiter', 'quotechar')}
+
+
+def _make_exporter(fmt, opts):
+	from gambit.results import CSVResultsExporter, JSONResultsExporter, ResultsArchiveWriter
+	if fmt == 'csv':
+		return CSVResultsExporter(**_csv_kwargs(opts))
+	return (JSONResultsExporter if fmt == 'json' else ResultsArchiveWriter)(pretty=bool(opts.get('pretty', False)))
+
+
+def _exporter_config(ex):
+	"""the public, documented configuration of an exporter instance"""
+	import copy
+	return copy.deepcopy(getattr(ex, 'format_opts', None)), getattr(ex, 'pretty', None)
+
+
+class _FailingStream(io.StringIO):
+	"""a caller-supplied text stream whose write() raises OSError once `limit` characters have been accepted"""
+
+	def __init__(self, limit):
+		super().__init__()
+		self.limit = limit
+
+	def write(self, s):
+		room = self.limit - self.tell()
+		if len(s) > room:
+			super().write(s[:max(0, room)])
+			raise OSError(f'harness: the output stream failed after {self.limit} characters')
+		return super().write(s)
+
+
+class _BoomList(list):
+	"""a caller-supplied container of result items whose iteration raises after `limit` items"""
+
+	def __init__(self, items, limit):
+		super().__init__(items)
+		self.limit = limit
+
+	def __iter__(self):
+		for n, x in enumerate(list.__iter__(self)):
+			if n >= self.limit:
+				raise RuntimeError(f'harness: the items container failed after {self.limit} items')
+			yield x
+
+
+class _Unserialisable:
+	pass
+
+
+def _call(fn, thread):
+	"""fn() in this thread, or in a worker thread that is joined at once (a sequential call from a second thread)"""
+	if not thread:
+		return fn()
+	import threading
+	box = {}
+
+	def run():
+		try:
+			box['v'] = fn()
+		except BaseException as e:
+			box['e'] = e
+	t = threading.Thread(target=run)
+	t.start()
+	t.join()
+	if 'e' in box:
+		raise box['e']
+	return box['v']
+
+
+def _dist_token(d):
+	import numpy as np
+	return (type(d).__name__, _f32bits(d) if isinstance(d, np.floating) else float(d).hex())
+
+
+def _snapshot(res):
+	"""everything observable of a caller-owned results object that the exports / the equality of the archive clause
+	depend on: the abstraction (keys, labels, files, flags, warnings, errors, params, version, timestamp, extra),
+	the type and bits of every distance, the identity of the item / params / genome set / metadata objects"""
+	import copy
+	try:
+		a = abs_results(res)
+		for it in a['items']:
+			it['closest'] = it['closest'][:1] + (_dist_token(it['closest'][1]),) + it['closest'][2:]
+			if it['primary'] is not None:
+				it['primary'] = it['primary'][:1] + (_dist_token(it['primary'][1]),) + it['primary'][2:]
+			it['closest_genomes'] = [m[:1] + (_dist_token(m[1]),) + m[2:] for m in it['closest_genomes']]
+		a['extra'] = copy.deepcopy(a['extra'])
+		ids = ([id(it) for it in res.items], [id(it.input) for it in res.items], [id(it.classifier_result) for it in res.items],
+		       id(res.items), id(res.params), id(res.genomeset), id(res.signaturesmeta), id(res.extra))
+		meta = res.signaturesmeta
+		return dict(a=a, ids=ids, attrs=sorted(vars(res)), meta=None if meta is None else copy.deepcopy(vars(meta)))
+	except Exception as e:
+		return dict(error=f'{type(e).__name__}: {e}')
+
+
+def _snap_diff(s0, s1):
+	if 'error' in s1:
+		return f'it can no longer be inspected ({s1["error"]})'
+	for k in ('attrs', 'ids', 'meta'):
+		if s0[k] != s1[k]:
+			return {'attrs': f'its attributes are now {s1["attrs"]} (were {s0["attrs"]})',
+			        'ids': 'the item list / an item / input / classifier result / params / genome set / metadata / extra OBJECT was replaced by another one',
+			        'meta': f'signatures metadata {s0["meta"]} -> {s1["meta"]}'}[k]
+	a0, a1 = s0['a'], s1['a']
+	for k in a0:
+		if k != 'items' and a0[k] != a1[k]:
+			return f'{k}: {a0[k]!r} -> {a1[k]!r}'
+	if len(a0['items']) != len(a1['items']):
+		return f'{len(a0["items"])} items -> {len(a1["items"])} items'
+	for n, (i0, i1) in enumerate(zip(a0['items'], a1['items'])):
+		for k in i0:
+			if i0[k] != i1[k]:
+				return f'item {n} ({i0["label"]!r}): {k}: {i0[k]!r} -> {i1[k]!r}'
+	return None
+
+
+def _session_state(ses):
+	return (len(ses.new), len(ses.dirty), len(ses.deleted))
+
+
+def _judge_export(ctx, g, res, base, fmt, opts, text):
+	"""property predicate for the text an export step produced (exporter options `opts`) for the result set `res`
+	whose single-call baseline (check_results) is `base`.  Returns (violation text or None, tie text or None)."""
+	from gambit.results import ResultsArchiveReader
+	a, exp_rows = base['a'], base['exp_rows']
+	plain = not opts
+	ref = base['texts'].get(fmt)
+	if fmt == 'csv':
+		try:
+			back = list(csv.reader(io.StringIO(text, newline=''), **_csv_reader_kwargs(opts)))
+		except csv.Error as e:
+			back = f'csv.Error: {e}'
+		if back != exp_rows:
+			return (f'CSV export (exporter options {opts}) does not parse back to header + one row per query with the documented cells: '
+			        f'got {back!r}, expected {exp_rows!r} (output {text!r})'), None
+		return None, ('plain CSV export differs from the first export of the same result set' if plain and ref is not None and text != ref else None)
+	try:
+		d = json.loads(text)
+	except ValueError as e:
+		return f'{fmt} export (exporter options {opts}): not valid JSON: {e} (output {text[:300]!r})', None
+	tie = None
+	if ref is not None:
+		if plain and text != ref:
+			tie = f'plain {fmt} export differs from the first export of the same result set'
+		elif not plain and d != json.loads(ref):
+			tie = f'pretty {fmt} export does not carry the same data as the compact one'
+	if fmt == 'json':
+		bad = _check_json(g, a, d, exp_rows)
+		return (f'JSON export (exporter options {opts}): {bad}' if bad else None), tie
+	if plain and ref is not None and text == ref:
+		return None, None       # this very text was read back and compared by the baseline
+	try:
+		r2 = ResultsArchiveReader(g.db.session).read(io.StringIO(text))
+	except Exception as e:
+		return f'archive (exporter options {opts}) cannot be read back: {type(e).__name__}: {e}', tie
+	bad = compare_loaded(g, a, res, r2, abs_results(r2), True)
+	return (f'archive (exporter options {opts}): {bad}' if bad else None), tie
+
+
+def _bad_archive(how, text, foreign):
+	"""an archive that cannot be read: ('text', str) or ('data', dict) or None when this result set offers no such corruption"""
+	if how == 'truncated':
+		return 'text', text[:max(1, (2 * len(text)) // 3)]
+	if how == 'foreign':
+		return None if foreign is None else ('text', foreign)
+	d = json.loads(text)
+	if how == 'unknown-genomeset':
+		d['genomeset']['key'] = d['genomeset']['key'] + ' (no such set)'
+	elif how == 'unknown-genome-last':
+		d['items'][-1]['classifier_result']['closest_match']['genome']['key'] = 'no such genome'
+	elif how == 'unknown-genome-first':
+		d['items'][0]['classifier_result']['closest_match']['genome']['key'] = 'no such genome'
+	elif how == 'unknown-taxon-last':
+		m = d['items'][-1]['classifier_result']['closest_match']
+		m['matched_taxon'] = {'key': 'no such taxon'}
+	elif how == 'bad-timestamp':
+		d['timestamp'] = 'not a date'
+	else:
+		raise ValueError(how)
+	return 'data', d
+
+
+def k_script(ctx, cases):
+	"""a short script of export / read calls over a small pool of SHARED caller objects: result sets against the genome
+	sets of one database file and (optionally) a second database of another size (twins share labels, the QueryParams
+	object, the list of QueryInput objects and the extra dict), exporter instances created lazily in step order (CSV ones
+	with various format options, JSON / archive ones compact or pretty), two reader instances per session, one shared
+	output stream, two output paths, one parsed archive dict per result set.  Steps:
+	  export     exporter e writes result set i to a fresh stream / appended to the shared stream / to path 0 or 1
+	             (possibly from a worker thread); the text is judged by the property predicate for its format
+	  read       reader r reads the archive of result set i (text, pretty text, the shared parsed dict through
+	             results_from_json, or a path); the object must reconstruct the original
+	  badexport  an export that fails part-way (stream raising after n characters, items container raising after n
+	             items, an unserialisable extra value) on objects shared with the other steps; outcome not judged
+	  badread    a read that fails (truncated text, unknown genome set, unknown genome in the first / last item,
+	             unknown taxon, bad timestamp, an archive of the other database); outcome not judged
+	After EVERY step: all result sets, the shared parameter / input / extra objects, the parsed dicts, the exporters'
+	public configuration and CSVResultsExporter.COLUMNS are unchanged (snapshots taken before the first call) and no
+	session has new / dirty / deleted objects.  Finally each result set is exported once more with fresh default
+	exporters and must give the baseline texts."""
+	import copy
+	import pathlib
+	import attr
+	from gambit.query import QueryParams
+	from gambit.results import CSVResultsExporter, JSONResultsExporter, ResultsArchiveWriter, ResultsArchiveReader
+	# the runner shrinks a failing case in THIS process, after the campaign: a change that keeps state at module / class / thread
+	# level has polluted the process by then, and a shrunk variant that only fails its single calls on fresh objects would not
+	# reproduce in a fresh process.  While shrinking, a variant that already fails there is therefore inconclusive (not failing).
+	shrinking = ctx.replaying and STATE.get('campaign')
+	for case in cases:
+		if STATE.get('script_violation') and not ctx.replaying:
+			ctx.count('script:skipped-after-first-script-violation')      # later cases may only see the state the first one left
+			continue
+		nv0 = len(ctx.violations)
+		_k_script_case(ctx, case, shrinking)
+		if len(ctx.violations) > nv0 and not ctx.replaying:
+			STATE['script_violation'] = True
+
+
+def _k_script_case(ctx, case, shrinking):
+	import copy
+	import pathlib
+	import attr
+	from gambit.query import QueryParams
+	from gambit.results import CSVResultsExporter, JSONResultsExporter, ResultsArchiveWriter, ResultsArchiveReader
+	for case in [case]:     # (a loop of one, so that `continue` leaves the case)
+		mdb = get_mdb(case['db_seed'], case.get('lone_cr'))
+		pools = list(mdb.sets)
+		if case.get('db2') is not None:
+			pools.append(get_db(case['db2'], case.get('lone_cr')))
+		specs = case.get('results') or []
+		exporters = [e for e in (case.get('exporters') or []) if isinstance(e, list) and len(e) == 2 and e[0] in ('csv', 'json', 'archive')]
+		steps = case.get('steps') or []
+		if not specs:
+			ctx.case(case, nontrivial=False)
+			continue
+		# ---- the shared caller objects
+		P, I, E, R = {}, {}, {}, []
+		for spec in specs:
+			g = pools[spec['set'] % len(pools)]
+			if spec['how'] == 'query':
+				pk = (spec['strict'], spec['chunksize'], spec['report_closest'])
+				if pk not in P:
+					P[pk] = QueryParams(classify_strict=pk[0], chunksize=pk[1], report_closest=pk[2])
+				ik = json.dumps([spec['labels'], spec['files']])
+				if ik not in I:
+					I[ik] = _inputs(spec)
+				ek = json.dumps(spec.get('extra', {}), sort_keys=True)
+				if ek not in E:
+					E[ek] = copy.deepcopy(spec.get('extra', {}))
+				inputs0 = list(I[ik])
+				res = run_query(g, spec, params=P[pk], inputs=I[ik], extra=E[ek])
+				if len(I[ik]) != len(inputs0) or any(x is not y for x, y in zip(I[ik], inputs0)):
+					ctx.violation('script', case, f'query() modified the list of inputs it was given: {inputs0} -> {I[ik]}')
+			else:
+				res = build_results(g, copy.deepcopy(spec))
+			R.append((g, res))
+		sessions = []
+		for g, _ in R:
+			if not any(g.db.session is s for s in sessions):
+				sessions.append(g.db.session)
+		ses0 = [_session_state(s) for s in sessions]
+		snaps = [_snapshot(res) for _, res in R]
+		params0 = {pk: attr.astuple(p) for pk, p in P.items()}
+		columns0 = copy.deepcopy(CSVResultsExporter.COLUMNS)
+
+		# ---- non-triviality: some exporter / reader / result set is shared by two steps
+		use = {}
+		follow = False
+		prev_bad = None
+		for st in steps:
+			keys = [('rs', st['rs'] % len(R))]
+			if st['op'] in ('export', 'badexport') and exporters:
+				keys.append(('ex', st['ex'] % len(exporters)))
+			if st['op'] in ('read', 'badread'):
+				keys.append(('rd', st['rd'] % 2, id(R[st['rs'] % len(R)][0].db.session)))
+			for k in keys:
+				use.setdefault(k, []).append(st['rs'] % len(R))
+			if st['op'] in ('export', 'read') and prev_bad is not None and prev_bad in keys[1:]:
+				follow = True
+			prev_bad = keys[-1] if st['op'] in ('badexport', 'badread') and len(keys) > 1 else None
+		ctx.case(case, nontrivial=any(len(v) > 1 for v in use.values()))
+		if follow:
+			ctx.count('script:good-call-after-failed-call-on-same-object')
+		if any(k[0] in ('ex', 'rd') and len({id(R[i][0]) for i in v}) > 1 for k, v in use.items()):
+			ctx.count('script:exporter-or-reader-crosses-genome-sets-or-databases')
+
+		# ---- single-call baseline of every result set (fresh exporters, model, fresh reader)
+		nv = len(ctx.violations)
+		B = []
+		for i, (g, res) in enumerate(R):
+			B.append(check_results(ctx, 'script', case, g, res, register=False, where=f'result set {i} (single calls on fresh objects): ', model=i == 0))
+		if len(ctx.violations) > nv or any(not all(f in b['texts'] for f in ('csv', 'json', 'archive')) for b in B):
+			if shrinking:
+				del ctx.violations[nv:]
+			continue
+
+		EX, EX0, RD, D, D0, first = {}, {}, {}, {}, {}, {}
+		shared = io.StringIO()
+		STATE['ndir'] = STATE.get('ndir', 0) + 1
+		cdir = os.path.join(STATE['scratch'], f'script{STATE["ndir"]}')
+		os.makedirs(cdir)
+		paths = [os.path.join(cdir, 'out é0.txt'), pathlib.Path(cdir) / 'out1.txt']
+
+		def invariants():
+			for i, (g, res) in enumerate(R):
+				d = _snap_diff(snaps[i], _snapshot(res))
+				if d:
+					return f'the results object of result set {i} was modified: {d}'
+			for pk, p in P.items():
+				if attr.astuple(p) != params0[pk]:
+					return f'the shared QueryParams object {params0[pk]} was modified: now {attr.astuple(p)}'
+			for s, s0 in zip(sessions, ses0):
+				if _session_state(s) != s0:
+					return (f'the database session now holds new / dirty / deleted objects {_session_state(s)} (before: {s0}): '
+					        f'{[repr(o)[:80] for o in list(s.new) + list(s.dirty) + list(s.deleted)][:4]}')
+			for k, ex in EX.items():
+				if _exporter_config(ex) != EX0[k]:
+					return f'the configuration of exporter {k} {exporters[k]} changed: {EX0[k]} -> {_exporter_config(ex)}'
+			for i in D:
+				if D[i] != D0[i]:
+					return f'the parsed archive dict of result set {i} that was handed to results_from_json was modified'
+			if CSVResultsExporter.COLUMNS != columns0:
+				return f'CSVResultsExporter.COLUMNS was modified: {CSVResultsExporter.COLUMNS}'
+			return None
+
+		bad = invariants()
+		if bad:
+			ctx.violation('script', case, f'after the single calls on fresh objects (three exports by fresh exporters, one read by a fresh reader): {bad}')
+			continue
+
+		failed = False
+		for n, st in enumerate(steps):
+			i = st['rs'] % len(R)
+			g, res = R[i]
+			base = B[i]
+			op = st['op']
+			what = None
+			if op in ('export', 'badexport'):
+				if not exporters:
+					continue
+				k = st['ex'] % len(exporters)
+				fmt, opts = exporters[k]
+				if k not in EX:
+					EX[k] = _make_exporter(fmt, opts)
+					EX0[k] = _exporter_config(EX[k])
+				ex = EX[k]
+				desc = f'step {n}: {op} of result set {i} by exporter {k} {fmt} {opts}'
+				if op == 'export':
+					to = st.get('to', 'mem')
+					try:
+						if to == 'append':
+							before = shared.getvalue()
+							_call(lambda: ex.export(shared, res), st.get('thread'))
+							text = shared.getvalue()
+							if not text.startswith(before):
+								what = 'the export changed what the shared output stream already held'
+							text = text[len(before):]
+						elif to in ('path0', 'path1'):
+							p = paths[to == 'path1']
+							_call(lambda: ex.export(p, res), st.get('thread'))
+							with open(p, newline='') as f:
+								text = f.read()
+						else:
+							buf = io.StringIO()
+							_call(lambda: ex.export(buf, res), st.get('thread'))
+							text = buf.getvalue()
+					except Exception as e:
+						what = f'raised {type(e).__name__}: {e}'
+					if what is None:
+						what, tie = _judge_export(ctx, g, res, base, fmt, opts, text)
+						fk = (fmt, json.dumps(opts, sort_keys=True), i)
+						if what is None and first.setdefault(fk, text) != text:
+							tie = tie or 'the same export with the same options gave two different texts'
+						if what is None and tie:
+							ctx.broke('script: same call, same result', f'case {case}: {desc} (to {to}): {tie}')
+					desc += f' (to {to}{", worker thread" if st.get("thread") else ""})'
+				else:
+					how = st.get('how')
+					lim = st.get('limit', 0)
+					try:
+						if how == 'stream':
+							ex.export(_FailingStream(lim % (len(base['texts'][fmt]) + 1)), res)
+						elif how == 'items':
+							ex.export(io.StringIO(), attr.evolve(res, items=_BoomList(res.items, lim % (len(res.items) + 1))))
+						else:
+							ex.export(io.StringIO(), attr.evolve(res, extra={'x': _Unserialisable()}))
+						ctx.count('script:bad-export-did-not-raise')
+					except Exception:
+						ctx.count('script:bad-export-raised')
+					desc += f' ({how}, limit {lim})'
+			elif op in ('read', 'badread'):
+				rk = (st['rd'] % 2, id(g.db.session))
+				if rk not in RD:
+					RD[rk] = ResultsArchiveReader(g.db.session)
+				rd = RD[rk]
+				desc = f'step {n}: {op} of the archive of result set {i} by reader {st["rd"] % 2} of its session'
+				text = base['texts']['archive']
+				if op == 'read':
+					via = st.get('via', 'text')
+					r2 = None
+					try:
+						if via == 'data':
+							if i not in D:
+								D[i] = json.loads(text)
+								D0[i] = copy.deepcopy(D[i])
+							r2 = rd.results_from_json(D[i])
+						elif via == 'path':
+							p = paths[1]
+							with open(p, 'w') as f:
+								f.write(text)
+							r2 = rd.read(p)
+						elif via == 'pretty':
+							r2 = rd.read(io.StringIO(_export(ResultsArchiveWriter(pretty=True), res)))
+						else:
+							r2 = rd.read(io.StringIO(text))
+					except Exception as e:
+						what = f'archive cannot be read back: {type(e).__name__}: {e}'
+					if r2 is not None:
+						what = compare_loaded(g, base['a'], res, r2, abs_results(r2), True)
+					desc += f' (via {via})'
+				else:
+					how = st.get('how')
+					foreign = next((b['texts']['archive'] for (g2, _), b in zip(R, B) if g2.db.session is not g.db.session), None)
+					try:
+						ba = _bad_archive(how, text, foreign)
+					except (KeyError, IndexError, TypeError, ValueError):
+						ba = None
+					if ba is None:
+						continue
+					try:
+						rd.read(io.StringIO(ba[1])) if ba[0] == 'text' else rd.results_from_json(ba[1])
+						ctx.count('script:bad-read-did-not-raise')
+					except Exception:
+						ctx.count('script:bad-read-raised')
+					desc += f' ({how})'
+			else:
+				continue
+			if what is None:
+				inv = invariants()
+				if inv:
+					what = f'afterwards {inv}'
+			if what:
+				ctx.violation('script', case, f'{desc}: {what}')
+				failed = True
+				break
+		if not failed:
+			# every result set once more through fresh default exporters: nothing observable has drifted
+			for i, (g, res) in enumerate(R):
+				for fmt, ex in (('csv', CSVResultsExporter()), ('json', JSONResultsExporter()), ('archive', ResultsArchiveWriter())):
+					try:
+						text = _export(ex, res)
+						what, tie = (None, None) if text == B[i]['texts'][fmt] else _judge_export(ctx, g, res, B[i], fmt, {}, text)
+					except Exception as e:
+						what, tie = f'raised {type(e).__name__}: {e}', None
+					if what:
+						ctx.violation('script', case, f'after all {len(steps)} steps, {fmt} export of result set {i} by a fresh default exporter: {what}')
+						failed = True
+					elif tie:
+						ctx.broke('script: same call, same result', f'case {case}: after all steps, fresh default {fmt} export of result set {i}: {tie}')
+				if failed:
+					break
+		shutil.rmtree(cdir, ignore_errors=True)
+
+
+def k_cliseq(ctx, cases):
+	"""several `gambit -d DB query -o OUT -f FMT [--strict] FILES` invocations in ONE process: the same query files against two
+	databases of different size in an order given by the case (A, B, A ...), formats and --strict varying, every invocation
+	writing to the SAME output path, and invocations that fail part-way in between (a missing file / a file that is no
+	sequence file in the middle of the file list: the database is loaded and the output file is already opened by then).  Every
+	successful invocation is judged exactly like kind cli (against an API query on the same files); failing ones are not judged."""
+	import datetime
+	import click.testing
+	import gambit.cli
+	from gambit.query import query_parse, QueryParams
+	from gambit.seq import SequenceFile
+	for case in cases:
+		if STATE.get('script_violation') and not ctx.replaying:
+			ctx.count('cliseq:skipped-after-first-sequence-violation')
+			continue
+		gs = [get_db(sd, case.get('lone_cr')) for sd in case['dbs']]
+		if not gs or not case['labels']:
+			ctx.case(case, nontrivial=False)
+			continue
+		STATE['ndir'] = STATE.get('ndir', 0) + 1
+		qdir = os.path.join(STATE['scratch'], f'qs{STATE["ndir"]}')
+		os.makedirs(qdir)
+		g0 = gs[0]
+		gkeys = list(g0.genomes)
+		paths = []
+		for (gi, rate, sd), lab in zip(case['queries'], case['labels']):
+			rng = random.Random(f'C11-q-{sd}')
+			base = g0.seqs[gkeys[gi % len(gkeys)]] if gi is not None else bytes(rng.choice(b'ACGT') for _ in range(3000))
+			p = os.path.join(qdir, lab + '.fasta')
+			with open(p, 'wb') as f:
+				f.write(b'>s1 x\n' + _mutate(rng, base, rate) + b'\n')
+			paths.append(p)
+		garbage = os.path.join(qdir, 'garbage.fasta')
+		with open(garbage, 'wb') as f:
+			f.write(b'this is no sequence file\n\x00\x01')
+		out = os.path.join(qdir, 'out.txt')
+		good = [st for st in case['steps'] if not st.get('fail')]
+		ctx.case(case, nontrivial=len(good) >= 2)
+		if len({st['db'] % len(gs) for st in good}) > 1:
+			ctx.count('cliseq:two-databases-in-one-process')
+		refs = {}
+		seen_fail = False
+		for n, st in enumerate(case['steps']):
+			g = gs[st['db'] % len(gs)]
+			sel = [i % len(paths) for i in st['files']]
+			sel = [i for k, i in enumerate(sel) if i not in sel[:k]]
+			if not sel:
+				continue
+			fpaths = [paths[i] for i in sel]
+			labels = [case['labels'][i] for i in sel]
+			fail = st.get('fail')
+			if fail:
+				fpaths = fpaths[:1] + [os.path.join(qdir, 'missing.fasta') if fail == 'missing' else garbage] + fpaths[1:]
+			fmt = st['fmt']
+			args = ['-d', g.dir, 'query', '-o', out, '-f', fmt, '--no-progress'] + (['--strict'] if st['strict'] else []) \
+				+ (['-c', str(st['cores'])] if st.get('cores') else []) + fpaths
+			r = click.testing.CliRunner().invoke(gambit.cli.cli, args)
+			if fail:
+				ctx.count('cliseq:failing-invocation-exit-nonzero' if r.exit_code != 0 else 'cliseq:failing-invocation-exit-zero')
+				seen_fail = True
+				continue
+			if seen_fail:
+				ctx.count('cliseq:good-invocation-after-failed-one')
+			where = f'invocation {n} ({fmt}{", --strict" if st["strict"] else ""}, database {st["db"] % len(gs)}, files {sel}): '
+			if r.exit_code != 0:
+				ctx.violation('cliseq', case, where + f'gambit query failed: exit {r.exit_code} {r.output[-300:]!r} {r.exception!r}')
+				if not ctx.replaying:
+					STATE['script_violation'] = True
+				break
+			with open(out, newline='') as f:
+				t = f.read()
+			rk = (st['db'] % len(gs), bool(st['strict']), tuple(sel))
+			if rk not in refs:
+				refs[rk] = query_parse(g.db, [SequenceFile(p, 'fasta', 'auto') for p in fpaths], QueryParams(classify_strict=bool(st['strict'])), file_labels=labels,
+				                       parse_kw=dict(concurrency=None))
+			ref = refs[rk]
+			if fmt != 'csv':
+				try:
+					ref.timestamp = datetime.datetime.fromisoformat(json.loads(t)['timestamp'])
+				except Exception:
+					pass
+			nv = len(ctx.violations)
+			check_results(ctx, 'cliseq', case, g, ref, texts={fmt: t}, register=False, where=where)
+			if len(ctx.violations) > nv:
+				if not ctx.replaying:
+					STATE['script_violation'] = True
+				break
+		shutil.rmtree(qdir, ignore_errors=True)
+
+
+KINDS = {'query': k_query, 'built': k_built, 'multiset': k_multiset, 'script': k_script, 'cli': k_cli, 'cliseq': k_cliseq, 'lonecr': k_lonecr, 'chunknone': k_chunknone, 'rows': k_rows, 'csvtext': k_csvtext,
          'jsonstr': k_jsonstr, 'jsontext': k_jsontext}
 
 
@@ -1041,6 +1713,8 @@ def setup(ctx):
 	STATE['scratch'] = impl.scratch_dir('gambit-verif-c11-')
 	STATE['dbs'] = {}
 	STATE['mdbs'] = {}
+	STATE['campaign'] = False
+	STATE['script_violation'] = False
 	# does the implementation under test quote a lone carriage return?
 	RowsExporter = _rows_exporter()
 	t = _export(RowsExporter(['h']), _RowsResults([['a\rb', 'c']]))
@@ -1060,16 +1734,24 @@ def setup(ctx):
 
 
 def teardown(ctx):
+	# the runner shrinks a failing case AFTER teardown, through the same kinds: the caches are emptied (and the
+	# directories removed) so that a later get_db / get_mdb builds the database again instead of handing out a
+	# ReferenceDatabase whose session was closed (its cached genomes would be detached from the identity map and no
+	# loaded results object could be == to the original any more)
 	for g in STATE.get('dbs', {}).values():
 		try:
 			g.db.session.close()
 		except Exception:
 			pass
+		shutil.rmtree(g.dir, ignore_errors=True)
 	for m in STATE.get('mdbs', {}).values():
 		try:
 			m.session.close()
 		except Exception:
 			pass
+		shutil.rmtree(m.dir, ignore_errors=True)
+	STATE['dbs'] = {}
+	STATE['mdbs'] = {}
 
 
 def _rand_label(rng, pool):
@@ -1167,8 +1849,81 @@ def _gen_schedule(rng, sets):
 	return [[rng.randrange(2), i] for i in idx + idx[:rng.randint(0, n)]]
 
 
+BAD_READS = ['truncated', 'unknown-genomeset', 'unknown-genome-last', 'unknown-genome-first', 'unknown-taxon-last', 'bad-timestamp', 'foreign']
+BAD_EXPORTS = ['stream', 'stream', 'items', 'extra']
+
+
+def _gen_script(rng, pool, chunks, nsets, db2):
+	"""description of one script case (see k_script): result sets over `nsets` genome sets of one database file plus,
+	when `db2` is not None, the single genome set of a second database (pool number nsets).  Every case has a FOCUS
+	object (one exporter instance or one reader number) that most steps go through, with result sets that change from
+	one use to the next; the remaining steps are drawn freely."""
+	npools = nsets + (db2 is not None)
+	results = []
+	base = None
+	nres = rng.randint(2, 4)
+	# the first two result sets are against different genome sets / databases; with a second database one of them is against it
+	first = rng.sample(range(npools), 2)
+	if db2 is not None and rng.random() < 0.6 and nsets not in first:
+		first[rng.randrange(2)] = nsets
+	for n in range(nres):
+		st = first[n] if n < 2 else rng.randrange(npools)
+		r = rng.random()
+		if base is not None and r < 0.45:       # a twin: same queries, labels, parameters against another set / database
+			results.append(dict(base, set=st))
+		elif r < 0.8:
+			base = dict(_gen_query(rng, pool, chunks), how='query')
+			results.append(dict(base, set=st))
+		else:
+			results.append(dict(_gen_built(rng, pool, chunks), set=st, how='built'))
+	side = [r['set'] >= nsets for r in results]       # which session a result set lives in
+	focus = rng.choice(['exporter', 'exporter', 'reader'])
+	exporters = []
+	for n in range(rng.randint(2, 4)):
+		fmt = rng.choice(['csv', 'json', 'archive']) if n == 0 else rng.choice(['csv', 'csv', 'csv', 'json', 'archive', 'archive'])
+		exporters.append([fmt, dict(rng.choice(CSV_OPTS)) if fmt == 'csv' else rng.choice([{}, {}, {'pretty': True}])])
+	rng.shuffle(exporters)
+	fe = rng.randrange(len(exporters))
+	frd = rng.randrange(2)
+	fside = rng.choice(side)
+	frs = [j for j in range(nres) if side[j] == fside]      # the focus reader reads archives of one session
+	steps = []
+	last = [None]
+
+	def other(cands):
+		"""a result set among `cands`, preferably not the one the focus object saw last"""
+		c = [j for j in cands if j != last[0]] or list(cands)
+		last[0] = rng.choice(c)
+		return last[0]
+	target = rng.randint(2, 6)
+	while len(steps) < target:
+		r = rng.random()
+		on_focus = rng.random() < 0.65
+		if r < 0.72:
+			if (focus == 'exporter') if on_focus else (rng.random() < 0.6):
+				steps.append(dict(op='export', ex=fe if on_focus else rng.randrange(len(exporters)), rs=other(range(nres)) if on_focus else rng.randrange(nres),
+				                  to=rng.choice(['mem', 'mem', 'append', 'path0', 'path1']), thread=rng.random() < 0.15))
+			else:
+				steps.append(dict(op='read', rd=frd if on_focus else rng.randrange(2), rs=other(frs) if on_focus else rng.randrange(nres),
+				                  via=rng.choice(['text', 'text', 'data', 'data', 'path', 'pretty'])))
+		elif (focus == 'exporter') if on_focus else (rng.random() < 0.5):
+			e = fe if on_focus else rng.randrange(len(exporters))
+			steps.append(dict(op='badexport', ex=e, rs=rng.randrange(nres), how=rng.choice(BAD_EXPORTS), limit=rng.choice([0, 1, 2, 40, rng.randrange(4000)])))
+			if rng.random() < 0.85:     # then a good call on the same exporter instance
+				steps.append(dict(op='export', ex=e, rs=other(range(nres)) if on_focus else rng.randrange(nres), to=rng.choice(['mem', 'append', 'path0']), thread=False))
+		else:
+			rd = frd if on_focus else rng.randrange(2)
+			rs = rng.choice(frs) if on_focus else rng.randrange(nres)
+			steps.append(dict(op='badread', rd=rd, rs=rs, how=rng.choice(BAD_READS)))
+			if rng.random() < 0.85:     # then a good call on the same reader instance (same session), mostly for another result set
+				same = [j for j in range(nres) if side[j] == side[rs]]
+				steps.append(dict(op='read', rd=rd, rs=other(same) if on_focus else rng.choice(same), via=rng.choice(['text', 'data', 'path'])))
+	return dict(db2=db2, results=results, exporters=exporters, steps=steps)
+
+
 def generate(ctx):
 	rng = ctx.rng
+	STATE['campaign'] = True
 	ctx.rule(RULE)
 	lone = STATE['lone_cr_ok']
 	pool = NASTY + (LONE_CR if lone else [])
@@ -1278,3 +2033,32 @@ def generate(ctx):
 						results.append(dict(_gen_built(rng, pool, chunks), set=si, how='built'))
 			yield 'multiset', dict(db_seed=dbi, lone_cr=lone, results=results, schedule=_gen_schedule(rng, [r['set'] for r in results]))
 			ctx.count('stream:multiset')
+
+	# -- scripts of export / read calls over shared caller objects (exporter and reader instances, result sets against several
+	#    genome sets and a second database, shared parameter / input objects, streams, paths, parsed dicts), with failing calls
+	nscript = ctx.pick(90, 600)
+	for j in range(nscript):
+		dbi = j % ctx.pick(4, 14)
+		nsets = len(get_mdb(dbi, lone).sets)
+		db2 = rng.choice([None, rng.randrange(ndb), rng.randrange(ndb)])
+		yield 'script', dict(db_seed=dbi, lone_cr=lone, **_gen_script(rng, pool, chunks, nsets, db2))
+		ctx.count('stream:script')
+
+	# -- several CLI invocations in one process: two databases in either order, one output path, failing invocations in between
+	for j in range(ctx.pick(8, 40)):
+		k = rng.randint(2, 3)
+		labels = []
+		while len(labels) < k:
+			lab = rng.choice(fn_pool) + rng.choice(['', '1', ' é'])
+			if lab not in labels and len(lab.encode()) < 100 and lab != 'garbage' and lab != 'missing':
+				labels.append(lab)
+		steps = []
+		for _ in range(rng.randint(3, 5)):
+			steps.append(dict(db=rng.randrange(2), fmt=rng.choice(['csv', 'json', 'archive']), strict=rng.random() < 0.4,
+			                  files=rng.sample(range(k), rng.randint(1, k)), fail=rng.choice([None, None, None, 'missing', 'garbage']),
+			                  cores=rng.choice([1, 1, 1, 1, 1, 2, None])))
+		if not any(st['fail'] for st in steps):
+			steps.insert(rng.randrange(len(steps)), dict(steps[0], fail=rng.choice(['missing', 'garbage'])))
+		yield 'cliseq', dict(dbs=rng.sample(range(ndb), 2), lone_cr=lone, labels=labels, steps=steps,
+		                     queries=[[rng.choice([None, rng.randrange(100)]), rng.choice([0.0, 0.01, 0.05]), rng.randrange(10 ** 6)] for _ in range(k)])
+		ctx.count('stream:cliseq')
